@@ -64,14 +64,22 @@ def _check(job):
     fmt, a, b, opt = job
     fails = []
     try:
-        ta, tb = C01._build(fmt, a, opt), C01._build(fmt, b, opt)
+        if fmt == 'plist>json':
+            # a plist document compared with a document of another format: PLISTNode.edits hands over to its root
+            from graphtage.plist import PLISTNode
+            ba = lambda: PLISTNode(gt.build(a, opt))
+            bb = lambda: gt.build(b, opt)
+        else:
+            ba = lambda: C01._build(fmt, a, opt)
+            bb = lambda: C01._build(fmt, b, opt)
+        ta, tb = ba(), bb()
         e = ta.edits(tb)
         walk.refine(e)
-        walk.walk(e, ta, tb, None, fails)
+        walk.walk(e, ta.root if fmt == 'plist>json' else ta, tb, None, fails)
         top = e.bounds()
-        d = C01._build(fmt, a, opt).diff(C01._build(fmt, b, opt))
+        d = ba().diff(bb())
         ec = d.edited_cost()
-        flat = list(C01._build(fmt, a, opt).get_all_edits(C01._build(fmt, b, opt)))
+        flat = list(ba().get_all_edits(bb()))
         for x in flat:
             walk.refine(x)
         fs = sum(x.bounds().upper_bound for x in flat)
@@ -132,6 +140,9 @@ def bounded(tier, seed, repo_root):
             for o in gt.OPTION_COMBOS:
                 jobs.append(('json', a, b, o))
     rnd = random.Random(seed)
+    pd = [d for d in docs if 'None' not in repr(d)]
+    for _ in range(400 if tier == 'quick' else 4000):
+        jobs.append(('plist>json', rnd.choice(pd), rnd.choice(pd), gt.OPTION_COMBOS[rnd.randrange(9)]))
     xs = gt.xml_specs()
     for _ in range(300 if tier == 'quick' else 3000):
         jobs.append(('xml', rnd.choice(xs), rnd.choice(xs), gt.OPTION_COMBOS[rnd.randrange(9)]))
@@ -140,7 +151,7 @@ def bounded(tier, seed, repo_root):
     return [{
         'name': 'C03.cost-sums', 'bound': f"documents <= {4 if tier == 'quick' else 5} nodes over {atoms!r} "
         f"({'all' if exhaustive else 'seeded sample of'} {len(pairs)} pairs, options cycling) + structured pairs with containers of "
-        f"different sizes + XML pairs",
+        f"different sizes + XML pairs + plist documents compared with JSON documents",
         'evaluations': len(jobs), 'distinct_nontrivial': len({(j[0], repr(j[1]), repr(j[2])) for j in jobs}), 'exhaustive': False,
         'rule': 'pair x options -> at every level the refined cost of a compound edit equals the sum of the costs of the '
                 'sub-edits it lists; refined top-level bounds == edited_cost() == sum over get_all_edits()',
